@@ -157,7 +157,9 @@ func (d *dialer) pipeClosed() {
 	// peer refuses to accept our protocol.  Injecting at least a little
 	// delay should help.
 	d.Lock()
-	time.AfterFunc(d.reconnTime, d.redial)
+	if !d.closed {
+		d.redialer = time.AfterFunc(d.reconnTime, d.redial)
+	}
 	d.Unlock()
 }
 
@@ -189,7 +191,7 @@ func (d *dialer) dial(redial bool) error {
 	// 2. After a previously created pipe fails and is closed due to error.
 	// 3. After timing out from a failed connection attempt.
 
-	if !redial {
+	if !redial || d.closed {
 		return err
 	}
 	switch err {
